@@ -47,14 +47,15 @@ def _cases(draw):
     return dict(s=s, targets=list(mix), scalar_idx=draw(st.integers(0, len(mix) - 1)),
                 sentinel=draw(st.sampled_from([None, None, None, "low", "high", "both"])),
                 derived=draw(st.sampled_from(["none", "none", "proportion", "replacement", "single_pass", "swap", "sample-of-swap"])),
-                seed=draw(gen.RNG_SEED), ratio=draw(st.sampled_from([0.5, 0.8, 0.34])))
+                seed=draw(gen.RNG_SEED), ratio=draw(st.sampled_from([0.5, 0.8, 0.34])),
+                target_dtype=draw(st.sampled_from([None, "float32", "float16", "longdouble"])))
 
 
-def _check_obj(s, targets, scalar_idx, tag="", int_array=False, derive=None):
+def _check_obj(s, targets, scalar_idx, tag="", int_array=False, derive=None, tdt=None):
     from score_analysis import Scores
 
     dt = int if s.get("mode") == "int" else float
-    rs = np.asarray(targets, dtype=int if int_array else float)
+    rs = np.asarray(targets, dtype=tdt or (int if int_array else float))
     for sc, ec in CONFIGS:
         pos, neg, ep, en = s["pos"], s["neg"], s["ep"], s["en"]
         obj = Scores(gen.build_scores(s, "pos") if "container" in s else np.asarray(pos, dtype=dt),
@@ -106,7 +107,9 @@ def _check_obj(s, targets, scalar_idx, tag="", int_array=False, derive=None):
                                         f"({hi})")
                 # scalar call at one of the targets
                 r = float(targets[scalar_idx])
-                if r == int(r) and abs(r) < 1e6:
+                if tdt:
+                    r = np.dtype(tdt).type(r)  # a NumPy scalar of that precision
+                elif r == int(r) and abs(r) < 1e6:
                     r = int(r)  # 0, 1, -1, 2 ... as the caller would write them
                 if r <= 0 or r >= 1:
                     ts = th(r, method=meth)
@@ -146,12 +149,18 @@ def check(case):
     _check_obj(s, case["targets"], case["scalar_idx"])
     # the two extreme targets written as an integer array
     _check_obj(s, [0, 1, -1, 2], case["scalar_idx"] % 4, tag="integer targets: ", int_array=True)
+    # targets held in single / half / extended precision (values exactly representable there)
+    tdt = case.get("target_dtype")
+    if tdt:
+        _check_obj(s, [0.0, 1.0, -0.5, 1.5, 2.0], case["scalar_idx"] % 5, tag=f"{tdt} targets: ", tdt=tdt)
     if case.get("derived", "none") != "none" and not sent:
         _check_obj(case["s"], case["targets"], case["scalar_idx"], tag=f"object from {case['derived']}: ", derive=case)
     labels = [f"mode:{s['mode']}"]
     if sent:
         labels.append("float-max-sentinel")
     labels.append(f"object:{case.get('derived', 'none')}")
+    if case.get("target_dtype"):
+        labels.append(f"targets:{case['target_dtype']}")
     if s["ep"] or s["en"]:
         labels.append("easy")
     if len(s["pos"]) == 1 or len(s["neg"]) == 1:
